@@ -11,6 +11,7 @@ Where the full statement fails (counterexample proved here, replayed on the impl
 -/
 import Helm.Lemmas.Cluster
 import Helm.Model.Ledger
+import Helm.Model.DryRun
 
 namespace Helm.Props.C07
 open Helm.Cluster
@@ -312,6 +313,13 @@ theorem counterexample_unstructured_adoption_not_stamped :
     (upgradeCluster "r" "n" true false false [] [crMan] [crLive]).ok = true ∧
     (upgradeCluster "r" "n" true false false [] [crMan] [crLive]).store = [crLive] ∧
     owned crLive "r" "n" = false := by decide
+
+/-- The CRDs of the chart's crds/ directory are created before the ownership check: an install
+that is then refused has already changed the cluster. -/
+theorem counterexample_crds_created_before_refusal :
+    let s : Store := [{ key := "a" }]       -- a foreign object the manifest would create
+    let r := Helm.DryRun.installOp "r" "n" {} false false [{ key := "crd/x" }] [{ key := "a" }] s
+    r.ok = false ∧ r.log = [.create "crd/x", .get "a"] ∧ r.store ≠ s := by decide
 
 /-- non-vacuity: a refusal, with a bystander and a foreign object in the store -/
 example :
